@@ -613,6 +613,31 @@ func c01TSVUse(c *Ctx, r *Report) {
 					} else {
 						sliceElemOrigins(x.Val, rcfg, os, map[ssa.Value]bool{}, 0)
 					}
+					// elements written in bulk: copy(header, cells)
+					for _, b2 := range fn.Blocks {
+						for _, in2 := range b2.Instrs {
+							cp, ok := in2.(*ssa.Call)
+							if !ok {
+								continue
+							}
+							if bi, ok := cp.Call.Value.(*ssa.Builtin); !ok || bi.Name() != "copy" || len(cp.Call.Args) != 2 {
+								continue
+							}
+							dst := cp.Call.Args[0]
+							isHeader := dst == x.Val
+							if _, fname, ok := fieldLoadName(dst); ok && fname == "headerStrings" {
+								isHeader = true
+							}
+							if !isHeader {
+								continue
+							}
+							before := len(os)
+							sliceElemOrigins(cp.Call.Args[1], rcfg, os, map[ssa.Value]bool{}, 0)
+							if len(os) == before {
+								os.add("COPIED", cp.Pos())
+							}
+						}
+					}
 					var bad []string
 					for k := range os {
 						if k != "CONST" && k != "DEC" && k != "NUM" {
